@@ -20,8 +20,11 @@ func runC20(c *Ctx) {
 	// the conservation clauses over the SECS-I transport
 	if only == "" || only == "secs1" {
 		c20SECS1(c, 6, 2, 3)
+		c20SECS1Drop(c, 3, 1)
 		if c.Thorough() {
 			c20SECS1(c, 16, 6, 8)
+			c20SECS1Drop(c, 8, 3)
+			c20SECS1Drop(c, 1, 0)
 		}
 		c20SECS1Faults(c)
 	}
